@@ -624,12 +624,13 @@ def reject_conditions(stmts, func, env, sizes, loop_re):
     return res, skipped
 
 
-def gen_sites(body, func, sizes, mtypes, env, head_src, shape_updates=None, cond_env=None):
+def gen_sites(body, func, sizes, mtypes, env, head_src, shape_updates=None, cond_env=None, allowed_conds=None):
     """-> (blocks, info); blocks: ('one', site) | ('forAux', [site]) | ('forDim', [site]) | ('updateShape',)"""
     blocks = []
     upd_seen = []
     failure_only = []
     positions = []
+    if allowed_conds is None: allowed_conds = ALLOWED_CONDS
     stmts = list(walk(parse_seq(body)))
 
     def classify(ctx, st):
@@ -640,7 +641,7 @@ def gen_sites(body, func, sizes, mtypes, env, head_src, shape_updates=None, cond
         in_loop = False
         for k, h, _ in ctx:
             if k in ("for", "while"): in_loop = True
-            if k in ("for", "while", "try") or (k, h) in ALLOWED_CONDS: continue
+            if k in ("for", "while", "try") or (k, h) in allowed_conds: continue
             need(k == "if" and in_loop and cond_env is not None,
                  "%s: allocator call under a condition the translator does not understand `%s(%s)`: %s" % (func, k, h, st))
             ids = cond_identifiers(h)
@@ -793,6 +794,36 @@ def generate(repo):
                       (r"for \(uint32_t i = 0; i < nknots\[dim\]; i\+\+\)\s*for \(uint32_t j = 0; j < n_conv_knots; j\+\+\)\s*rho\[n_rho\+\+\]", "n_rho")]:
         need(re.search(pat, cbody), "convolve: definition of %s changed" % what)
 
+    # ---- the destructor: what a table that was loaded (and convolved) gives back to the allocator
+    dbody = function_body(head_src, r"~splinetable\s*\(")
+    need(re.search(r"uint64_t ncoeffs\s*=\s*strides\[0\]\s*\*\s*naxes\[0\]\s*;", dbody), "~splinetable: ncoeffs is no longer strides[0]*naxes[0]")
+    # the sizes of the two strings of an entry are recomputed from their contents: the key block holds a string of
+    # keylen-1 characters, the value block the stored string (storedlen is defined by the reader as exactly this strlen+1)
+    dbody2, nk = re.subn(r"strlen\(\s*&aux\[i\]\[0\]\[0\]\s*\)\s*\+\s*1", "KEYLEN", dbody)
+    dbody2, nv = re.subn(r"strlen\(\s*&aux\[i\]\[1\]\[0\]\s*\)\s*\+\s*1", "STOREDLEN", dbody2)
+    need(nk == 1 and nv == 1 and "strlen" not in dbody2, "~splinetable: the sizes released for key and value are no longer strlen+1 of the stored strings")
+    need(re.search(r"std::copy\(\s*key\s*,\s*key\s*\+\s*keylen\s*,\s*aux\[i\]\[0\]\s*\)", rbody),
+         "read_fits_core: the key block no longer receives the key string (needed for the size the destructor releases)")
+    # `if (ndim)`: a loaded table has at least one dimension (Valid.cdim_lt / NAXIS >= 1 is required by the reader);
+    # `if (extents)`, `if (periods)`: both are requested unconditionally by read_fits_core (checked here)
+    one_stmts = [b[1]["stmt"] for b in read_blocks if b[0] == "one"]
+    for mem in ("extents", "periods"):
+        need(any(re.match(r"^%s\s*=\s*allocate\s*<" % mem, st) for st in one_stmts),
+             "read_fits_core no longer allocates %s unconditionally: the destructor's `if (%s)` is not known to hold" % (mem, mem))
+    env_destroy = {"ndim": "v.ndim", "naux": "v.naux", "ncoeffs": "v.ncoeffs", "nknots[i]": "v.nknots", "order[i]": "v.order",
+                   "KEYLEN": "v.keylen", "STOREDLEN": "v.storedlen"}
+    destroy_blocks, destroy_info, dstmts = gen_sites(dbody2, "~splinetable", sizes, mtypes, env_destroy, head_src,
+                                                     allowed_conds={("if", "ndim"), ("if", "extents"), ("if", "periods")})
+    need(all(s["kind"] == "free" for b in destroy_blocks for s in ([b[1]] if b[0] == "one" else b[1])), "~splinetable: the destructor allocates")
+    need(not any(re.match(r"^(return|throw|continue|break)\b", st) for st, _ in dstmts), "~splinetable: early exit in the destructor")
+    # ---- routines that work on a loaded table without the table's allocator (scratch memory is new[]/std::vector)
+    perm_src = strip_comments(open(os.path.join(repo, "include/photospline/detail/permute.h")).read())
+    need(not re.search(r"\b(de)?allocate\s*[<(]", perm_src), "permute.h: permuteDimensions now calls the table's allocator (it used new[] scratch only)")
+    # ---- in the two anchored files the allocator is called from nowhere but the two modelled functions
+    for src, body, name in ((fits_src, rbody, "fitsio.h/read_fits_core"), (conv_src, cbody, "convolve.h/convolve")):
+        need(len(re.findall(r"\b(?:de)?allocate\s*[<(]", src)) == len(re.findall(r"\b(?:de)?allocate\s*[<(]", body)),
+             "%s: allocator calls outside the modelled function" % name)
+
     L = []
     L.append("import PsV.Model.AllocBase")
     L.append("/-! GENERATED by tools/gen_c19.py from the photospline source tree — do not edit.")
@@ -845,12 +876,18 @@ def generate(repo):
     L.append("/-- convolve (convolve.h); `.updateShape` = `this->nknots[dim] = n_rho; this->order[dim] = convorder; this->naxes[dim] = naxes[dim];` -/")
     L.append("def convolveBlocks : List Block := " + lean_blocks(conv_blocks))
     L.append("")
+    L.append("/-- ~splinetable (splinetable.h), on a table for which `ndim`, `extents`, `periods` are non-null (every loaded table);")
+    L.append("    `strlen(&aux[i][0][0])+1` is `keylen`, `strlen(&aux[i][1][0])+1` is `storedlen` -/")
+    L.append("def destroyBlocks : List Block := " + lean_blocks(destroy_blocks))
+    L.append("")
     L.append("end PsV.Generated.C19")
     def fmt(s): return s["stmt"] + (("   [if %s]" % s["cond_src"]) if s.get("cond_src") else "")
     summary = {"constants": consts, "estimate": est,
                "reader_rejects": [src for src, _ in rej], "reader_throws_outside_the_size_model": rej_skipped,
                "convolve_rejects": [src for src, _ in crej],
                "read_info": read_info, "convolve_info": conv_info,
+               "destroy_sites": [[b[0]] + ([fmt(b[1])] if b[0] == "one" else [fmt(s) for s in b[1]]) for b in destroy_blocks],
+               "routines_without_allocator_calls": ["permute.h: permuteDimensions"],
                "read_sites": [[b[0]] + ([fmt(b[1])] if b[0] == "one" else [fmt(s) for s in b[1]] if b[0] != "updateShape" else []) for b in read_blocks],
                "convolve_sites": [[b[0]] + ([fmt(b[1])] if b[0] == "one" else [fmt(s) for s in b[1]] if b[0] != "updateShape" else []) for b in conv_blocks]}
     return "\n".join(L) + "\n", summary
